@@ -5,7 +5,7 @@ pub fn property() -> Property {
     Property {
         id: "C18",
         rule: "builder scenarios with key / Byron / native / Plutus inputs, collateral, certificates, withdrawals, votes, proposals with policy scripts, mints, required signers, scripts and datums drawn from small pools (shared between sources), by value and by reference. Oracle: every script item has its script exactly once (witness set by hash, or its declared reference input in body key 18), Plutus items exactly one redeemer and their witness datum exactly once, nothing superfluous; with S = byte length of the transaction really signed by the required set: S <= full_size() < S + 101. Non-trivial = a script used twice, or a reference script, or >= 2 signers; distinct by built bytes",
-        assumptions: vec!["scenarios: tape-decoded protocol parameters, keyring of 6 keys + 2 Byron roots, pools of 5 native and 5 Plutus scripts and 4 datums (overlaps between sources are common), a UTxO universe the scenario owns, and a sequence of builder operations (inputs by every public route, outputs, certificates of 17 shapes with key / native / Plutus credentials, withdrawals, mint and burn, votes, proposals, required signers, reference inputs, extra datums, auxiliary data, ttl, donation, collateral and its helper routes, fee requests, calc_script_data_hash, one of 7 balancing routes incl. the 4 coin-selection strategies), then build_tx / build / build_tx_unsafe".into(), "operations the library rejects with Err are recorded and skipped: the properties are conditional on success".into(), "UTxO values, owners and reference scripts come from the scenario's own map; sums, sizes, deposits, fees and hashes are recomputed from the emitted bytes by the engine (cbor.rs, ledger.rs), never asked from the library".into(), "a UTxO that carries a reference script is only spent through the add_regular_utxo route (the other input adders have no parameter to declare its script size)".into(), "signer conventions as in DESIGN.md C18: a Plutus source's signer hint is always accompanied by add_required_signer for the same keys; a referenced native script is always given its signer hint".into()],
+        assumptions: vec!["scenarios: tape-decoded protocol parameters, keyring of 6 keys + 2 Byron roots, pools of 5 native and 5 Plutus scripts and 4 datums, each also decoded from a second, non-canonical encoding (overlaps between sources are common; the Redeemer objects handed to the builder carry placeholder tags and indices; a reference input may be registered twice, plainly and with its script size), a UTxO universe the scenario owns, and a sequence of builder operations (inputs by every public route, outputs, certificates of 17 shapes with key / native / Plutus credentials, withdrawals, mint and burn, votes, proposals, required signers, reference inputs, extra datums, auxiliary data, ttl, donation, collateral and its helper routes, fee requests, calc_script_data_hash, one of 7 balancing routes incl. the 4 coin-selection strategies), then build_tx / build / build_tx_unsafe".into(), "operations the library rejects with Err are recorded and skipped: the properties are conditional on success".into(), "UTxO values, owners and reference scripts come from the scenario's own map; sums, sizes, deposits, fees and hashes are recomputed from the emitted bytes by the engine (cbor.rs, ledger.rs), never asked from the library".into(), "a UTxO that carries a reference script is only spent through the add_regular_utxo route (the other input adders have no parameter to declare its script size)".into(), "signer conventions as in DESIGN.md C18: a Plutus source's signer hint is always accompanied by add_required_signer for the same keys; a referenced native script is always given its signer hint".into()],
         subchecks: vec![SubCheck { name: "scenario", kind: Kind::Tape { quick: 400000, thorough: 10000000, max_len: 500 }, run: super::builder::c18_case }],
         crash_prone: false,
         max_reject_fraction: 0.1,
